@@ -5,10 +5,10 @@
 From Coq Require Export List String.
 Export ListNotations.
 
-Inductive aop := ALoad | AStore | ACas.
+Inductive aop := ALoad | AStore | ACas | ASwap.
 
 Inductive sk :=
-| SkAtomic (var : string) (op : aop)      (* x.<var>.Load() / Store / CompareAndSwap *)
+| SkAtomic (var : string) (op : aop)      (* x.<var>.Load() / Store / CompareAndSwap / Swap *)
 | SkLock (mu : string)
 | SkUnlock (mu : string)
 | SkSend (ch : string)                    (* x.<ch> <- v *)
